@@ -356,8 +356,15 @@ func errKind(err error) string {
 func (f *fixture) execute(idx int, cs *Case) observation {
 	w := f.w
 
-	for t, h := range remoteOf {
-		w.remote[h] = cs.remoteOutcome(t)
+	for _, h := range remoteOf {
+		w.remote[h] = "ok"
+	}
+
+	// two types may share a remote host (jwt and jwtmd are never in one chain): the types of the chain decide
+	for _, st := range cs.Chain {
+		if h, ok := remoteOf[st.Type]; ok {
+			w.remote[h] = cs.remoteOutcome(st.Type)
+		}
 	}
 
 	w.tr.Reset()
@@ -593,6 +600,12 @@ func run(c *engine.Ctx) {
 		}
 	}
 
+	// the jwt authenticator behind a metadata endpoint (URL templated over the token's issuer): a family of its own
+	for _, f := range []string{"proto-off", "proto-on", "rule-on", "rule-off"} {
+		all = append(all, []Step{{"jwtmd", f}, {"anon", "-"}}, []Step{{"jwtmd", f}, {"basic", "proto-off"}},
+			[]Step{{"basic", "proto-off"}, {"jwtmd", f}})
+	}
+
 	var mine []int
 
 	for i := range all {
@@ -690,11 +703,12 @@ func Check() *engine.Check {
 		ID:    "C04",
 		Level: "exploration",
 		Rule: "full product: every sequence of distinct authenticator types of length 1..2 (quick) / 1..3 (thorough) over {jwt, basic_auth, generic, " +
-			"oauth2_introspection, anonymous, unauthorized} x every assignment of allow_fallback_on_error per flaggable authenticator from 4 sources " +
+			"oauth2_introspection, anonymous, unauthorized} (plus a family of chains with a jwt authenticator behind a metadata endpoint whose URL is a " +
+			"template over the token's issuer) x every assignment of allow_fallback_on_error per flaggable authenticator from 4 sources " +
 			"(catalogue default, catalogue true, rule-level true over catalogue default, rule-level false over catalogue true; for chains <= 2 also " +
-			"a rule-level override of another property over catalogue true / default, which must inherit the catalogue value) x 19 values of the one " +
+			"a rule-level override of another property over catalogue true / default, which must inherit the catalogue value) x 22 values of the one " +
 			"Authorization header (none; Basic valid / wrong password / wrong user / not base64 / no colon / scheme only; Bearer JWT valid / bad " +
-			"signature / expired / wrong audience / unknown kid / HS256 MAC'ed with the published key set / alg none / three garbage segments; Bearer opaque active / inactive / wrong audience; " +
+			"signature / expired / wrong audience / unknown kid / without iss / ES384 under the kid of the ES256 key / HS256 MAC'ed with the published key set / alg none / three garbage segments; Bearer opaque active / inactive / wrong audience; " +
 			"Bearer scheme only; Digest) x 5 X-Session values when generic is in the chain (none, valid, unknown->401, inactive, answer without subject) " +
 			"x {ok, 503, transport error} for every remote (JWKS, identity, introspection endpoint) of the chain. Real authenticators from the real " +
 			"mechanism factory, chained in a real rule (real rule factory, repository, executor); subject id echoed by a header finalizer. Chains of " +
